@@ -1094,7 +1094,12 @@ def trace_worker(job):
             ops.append(o)
         for _ in range(cnt):
             if cls == 'reg':
-                ops.append(gen_reg_op(rng, ver == 1))
+                # (PC=0 on a version 1 file is allowed here: snapmod has to write a later version then, and everything it was
+                #  not asked to change must still read back the same)
+                o = gen_reg_op(rng, False)
+                if ver == 1 and rng.random() < 0.25:
+                    o = op('reg', name='pc', v=0)
+                ops.append(o)
             elif cls == 'state':
                 ops.append(gen_state_op(rng, machine))
             else:
